@@ -123,7 +123,7 @@ def tree_queries(kind='db', config='base', tier_all=None, only=None, quick_set=N
     qs = []
     sfx = '' if (kind, config) == ('db', 'base') else '-%s-%s' % (kind, config)
     u1 = tree_unit(kind, config, 1)
-    qs.append(Query('two-keys-get' + sfx, u1, 'h2_get', unwind=10, flags=['--slice-formula'], loop_bounds=[('::(get|insert|remove)_internal', 3)],
+    qs.append(Query('two-keys-get' + sfx, u1, 'h2_get', unwind=10, flags=['--slice-formula'], loop_bounds=[('::(get|insert|remove)_internal', 3), ('::try_(get|insert|remove)', 3)],
                     tier=tier_all or 'quick', about='from empty: insert(k1), insert(k2), get(q) with k1,k2,q fully symbolic 64-bit keys',
                     bounds={'symbolic_keys': 3, 'key_bits': 64, 'value_len': 1}))
     for name, (depth, mnt) in PRELUDES.items():
@@ -133,7 +133,7 @@ def tree_queries(kind='db', config='base', tier_all=None, only=None, quick_set=N
         for op, what in (('get', 'get(k)'), ('ins', 'insert(k,v) then get(k) and get of every prelude key'), ('rem', 'remove(k) then get(k) and get of every prelude key')):
             h = '%s_%s' % (op, name)
             tier = tier_all or ('quick' if h in (QUICK_TREE if quick_set is None else quick_set) else 'thorough')
-            qs.append(Query(h + sfx, u, h, unwind=10, flags=['--slice-formula'], loop_bounds=[('::(get|insert|remove)_internal', depth + 1)], tier=tier,
+            qs.append(Query(h + sfx, u, h, unwind=10, flags=['--slice-formula'], loop_bounds=[('::(get|insert|remove)_internal', depth + 1), ('::try_(get|insert|remove)', depth + 1)], tier=tier,
                             about='concrete prelude "%s" then ONE %s with a fully symbolic 64-bit key (and value byte), compared with the map oracle' % (name, what),
                             bounds={'prelude': name, 'symbolic_ops': 1, 'key_bits': 64, 'value_len': 1, 'max_node_type': mnt}))
     return qs
@@ -172,8 +172,21 @@ def node_queries(config='base', tier_all=None, only_prefix=None):
     return qs
 
 
+def big_queries(kind='db', config='base', tier='quick'):
+    u = U('tree.cpp', config, defines=['DBKIND=%d' % DBKINDS[kind]], max_node_type=4)
+    sfx = '' if (kind, config) == ('db', 'base') else '-%s-%s' % (kind, config)
+    return [Query(h + sfx, u, h, unwind=60, unwindset=['m_memset.0:2100'], flags=['--slice-formula'], tier=tier,
+                  loop_bounds=[('::(get|insert|remove)_internal', 3), ('::try_(get|insert|remove)', 3), ('inode_256', 260), ('inode_48', 260), (r'^void big_get', 60)],
+                  about='tree grown/shrunk through the node size classes by 17-51 concrete inserts/removes (%s), then get(k) for a fully symbolic key' % what,
+                  bounds={'prelude': h, 'symbolic_ops': 1, 'key_bits': 64})
+            for h, what in (('big_i48', 'I4->I16->I48'), ('big_i256', '->I256'), ('big_shr16', 'I48->I16'), ('big_shr48', 'I256->I48'), ('big_shr4', 'I48->I16->I4'))]
+
+
 def c01():
-    qs = tree_queries('db', 'base') + node_queries('base')
+    qs = tree_queries('db', 'base') + node_queries('base') + big_queries('db', 'base')
+    qs += tree_queries('mutex', 'base', quick_set={'get_leaf', 'get_i4_3', 'get_2lvl', 'get_3lvl', 'ins_leaf', 'rem_leaf', 'rem_i4_2'})
+    # OLC index, one registered thread: only the lookups fit (insert/remove with a symbolic key: > 24 GB, measured); the write paths of the OLC index run with concrete keys in C03/C04/C14
+    qs += [q for q in tree_queries('olc', 'nostats', quick_set={'get_i4_3', 'get_2lvl'}) if q.entry.startswith('get_')]
     return Check('C01', 'model_checking', qs,
                  assumptions=['switch cases on node types above the stated per-query bound are replaced by assert(false) (checked cut)',
                               'tag/untag of node pointers (basic_node_ptr::tag_ptr/type/ptr) are replaced by pointer-arithmetic equivalents with an alignment assertion'],
@@ -183,19 +196,20 @@ def c01():
                              'min-size I16, two- and three-level trees with key prefixes, a two-child root that collapses onto an inode) on which ONE operation runs with a fully '
                              'symbolic 64-bit key, so every way a key can leave the tree (prefix split at any byte, leaf split at any depth, add, grow, duplicate; remove/shrink/collapse) '
                              'is decided for all 2^64 keys by one SAT query per (tree, operation). Histories longer than prelude + one symbolic operation, '
-                             'more than one simultaneously symbolic key on a non-empty tree, and byte-string keys are outside these queries.')
+                             'more than one simultaneously symbolic key on a non-empty tree, byte-string keys, and symbolic-key insert/remove on the OLC index (out of memory) are outside these queries; '
+                             'the mutex index runs the same catalogue (quick: a subset), the OLC index the lookups.')
 
 
 SCAN_SHAPES = {  # name -> descent iterations (inodes on the deepest path + leaf)
-    'leaf': 1, 'i4_3': 2, 'i16_5': 2, '2lvl': 3, '3lvl': 4, 'fall': 4, 'fall2': 3, 'sparse': 2}
+    'leaf': 1, 'i4_3': 2, 'i16_5': 2, '2lvl': 3, '3lvl': 4, 'fall': 4, 'fall2': 3, 'sparse': 2, 'i48': 2, 'i256': 2}
 SCAN_STUBS = dict(stubs=['tag_ptr', 'node_type', 'node_ptr', 'lib_abort', 'keybuf_noop'], noinline=['@_ZN5unodb6detail10key_buffer(4push|3pop)E'])
 
 
-def scan_unit(kind='db', config='base', mnt=2):
+def scan_unit(kind='db', config='base', mnt=4):
     return U('scan.cpp', config, defines=['DBKIND=%d' % DBKINDS[kind], 'UNODB_DETAIL_VERIF_FIXED_ITER_STACK=6'], max_node_type=mnt, **SCAN_STUBS)
 
 
-SCAN_N = {'leaf': 1, 'i4_3': 3, 'i16_5': 5, '2lvl': 5, '3lvl': 5, 'fall': 5, 'fall2': 3, 'sparse': 3}
+SCAN_N = {'leaf': 1, 'i4_3': 3, 'i16_5': 5, '2lvl': 5, '3lvl': 5, 'fall': 5, 'fall2': 3, 'sparse': 3, 'i48': 20, 'i256': 51}
 
 
 def scan_lb(d, n=8):
@@ -211,13 +225,17 @@ def scan_queries(kind='db', config='base', tier_all=None):
     qs.append(Query('scan-empty' + sfx, u, 'scan_empty', unwind=10, flags=['--slice-formula'], tier=T('quick'), about='all five scan forms on the empty index, symbolic bounds'))
     for name, d in SCAN_SHAPES.items():
         for mode, what in (('scan_fwd', 'scan(fwd)'), ('scan_rev', 'scan(rev)')):
-            qs.append(Query('%s_%s%s' % (mode, name, sfx), u, '%s_%s' % (mode, name), unwind=10, flags=['--slice-formula'], loop_bounds=scan_lb(d, SCAN_N[name]) if config == 'base' else [], tier=T('quick'),
+            big = name in ('i48', 'i256')
+            qs.append(Query('%s_%s%s' % (mode, name, sfx), u, '%s_%s' % (mode, name), unwind=270 if big else 10, unwindset=['m_memset.0:2100'] if big else [], flags=['--slice-formula'],
+                            loop_bounds=scan_lb(d, SCAN_N[name]) if (config == 'base' and not big) else [], tier=T('quick'),
                             about='%s over concrete tree "%s", symbolic halting position (1..n+1)' % (what, name), bounds={'tree': name, 'symbolic': 'halt position'}))
         for mode, what, heavy in (('seek_fwd', 'seek(k, fwd) on the iterator', 1), ('seek_rev', 'seek(k, rev)', 1), ('seek_fwd_step', 'seek(k,fwd) then next()', 2),
                                   ('seek_rev_step', 'seek(k,rev) then prior()', 2), ('from_fwd', 'scan_from(k, fwd) with symbolic halt', 3),
                                   ('from_rev', 'scan_from(k, rev) with symbolic halt', 3), ('range', 'scan_range(a, b) with symbolic halt', 4)):
             if kind == 'mutex' and mode.startswith('seek'):
                 continue
+            if name in ('i48', 'i256'):
+                continue      # symbolic bounds on the large classes: node-level lemmas (C02 L2) only
             if name in ('3lvl', 'fall', '2lvl', 'i16_5') and heavy >= 2:
                 continue      # measured out of reach (SAT instance > 40 GB)
             if name == 'fall' and heavy >= 1:
